@@ -333,8 +333,8 @@ pub fn run(a: &Args) {
                                 (0..slots).map(|i| if i == at { vec![7; vlen] } else { vec![1, 2] }).collect() };
                             match rng.below(7) {
                                 0 => { let total = *rng.pick(&[999usize, 1000, 1001]); s.state_mutations = (0..total).map(|i| Mutation { key: vec![i as Word], value: vec![1] }).collect(); }
-                                1 => { let at = rng.below(3) as usize; s.state_mutations = (0..3).map(|i| Mutation { key: if i == at { vec![3; *rng.pick(&[1000usize, 1001])] } else { vec![i as Word] }, value: vec![1] }).collect(); }
-                                2 => { let at = rng.below(3) as usize; s.state_mutations = (0..3).map(|i| Mutation { key: vec![i as Word], value: if i == at { vec![5; *rng.pick(&[10000usize, 10001])] } else { vec![] } }).collect(); }
+                                1 => { let k = *rng.pick(&[1usize, 1, 2, 3]); let at = rng.below(k as u64) as usize; s.state_mutations = (0..k).map(|i| Mutation { key: if i == at { vec![3; *rng.pick(&[1000usize, 1001])] } else { vec![i as Word] }, value: vec![1] }).collect(); }
+                                2 => { let k = *rng.pick(&[1usize, 1, 2, 3]); let at = rng.below(k as u64) as usize; s.state_mutations = (0..k).map(|i| Mutation { key: vec![i as Word], value: if i == at { vec![5; *rng.pick(&[10000usize, 10001])] } else { vec![] } }).collect(); }
                                 3 => { s.state_mutations = vec![Mutation { key: vec![3], value: vec![1] }, Mutation { key: vec![4], value: vec![] }, Mutation { key: vec![3], value: vec![2] }]; }
                                 4 => { s.state_mutations = vec![Mutation { key: vec![4], value: vec![1] }, Mutation { key: vec![3], value: vec![] }, Mutation { key: vec![5], value: vec![2] }, Mutation { key: vec![5], value: vec![2] }]; }
                                 _ => { s.state_mutations = vec![Mutation { key: vec![3], value: vec![1] }]; }
